@@ -21,6 +21,7 @@ import (
 	"net/http"
 	"net/http/httptest"
 	"strconv"
+	"strings"
 	"testing"
 	"time"
 
@@ -104,6 +105,11 @@ func c04HTTPRequest(w c04Wire) *http.Request {
 		if w.Framing == "nobody" {
 			req.ContentLength = int64(len(w.Body))
 		}
+		if w.AbortMore > 0 && w.Framing != "chunked" {
+			// the client announced more than it delivered
+			req.ContentLength = int64(len(w.Body) + w.AbortMore)
+			req.Header.Set("Content-Length", strconv.Itoa(len(w.Body)+w.AbortMore))
+		}
 	}
 	if !w.NoHeader {
 		for _, v := range w.headerValues() {
@@ -171,12 +177,14 @@ type c04SigStep struct {
 	Shape  string    `json:"shape,omitempty"` // header shape of the tampered request
 	At     int       `json:"at,omitempty"`    // abort: bytes delivered before the read error
 	Err    string    `json:"err,omitempty"`   // abort: "ueof" io.ErrUnexpectedEOF, "custom"
+	More   int       `json:"more,omitempty"`  // abort: bytes announced in Content-Length beyond the body
 }
 
 type c04SigCase struct {
 	Strict bool         `json:"strict"`
 	TolMs  int64        `json:"tol"`
 	NowMs  int          `json:"now,omitempty"` // sub-second part of the virtual clock
+	Echo   bool         `json:"echo,omitempty"` // the handler writes a response body (encrypted by the server under content type 1)
 	Steps  []c04SigStep `json:"steps"`
 }
 
@@ -185,6 +193,7 @@ func c04SigInterp(t *testing.T, c c04SigCase) (v kit.Verdict) {
 	var fail string
 	ranReqs := map[c04SigReq]bool{}
 	nontrivial := false
+	panicked := ""
 	res := kit.Bubble(t, func() {
 		decs, err := c04Decryptors()
 		if err != nil {
@@ -199,7 +208,13 @@ func c04SigInterp(t *testing.T, c c04SigCase) (v kit.Verdict) {
 			seen.ran++
 			seen.body, _ = io.ReadAll(r.Body)
 			w.WriteHeader(http.StatusOK)
+			if c.Echo {
+				fmt.Fprintf(w, "echo:%d:%s", len(seen.body), seen.body)
+			}
 		}))
+		if c.Echo {
+			classes["handler-writes-a-response-body"] = true
+		}
 		if c.NowMs > 0 {
 			time.Sleep(time.Duration(c.NowMs) * time.Millisecond)
 		}
@@ -207,7 +222,14 @@ func c04SigInterp(t *testing.T, c c04SigCase) (v kit.Verdict) {
 		send := func(w c04Wire) (int, *c04SigSeen) {
 			seen = &c04SigSeen{}
 			rec := httptest.NewRecorder()
-			mw.ServeHTTP(rec, c04HTTPRequest(w))
+			func() {
+				defer func() {
+					if p := recover(); p != nil {
+						panicked = fmt.Sprint(p)
+					}
+				}()
+				mw.ServeHTTP(rec, c04HTTPRequest(w))
+			}()
 			return rec.Code, seen
 		}
 		if !c.Strict {
@@ -267,6 +289,15 @@ func c04SigInterp(t *testing.T, c c04SigCase) (v kit.Verdict) {
 				if !judged {
 					exp = c04Unspec
 				}
+				if st.Req.BadEnc > 0 && st.Req.CType == 1 && len(plain) > 0 {
+					// correctly signed, but the body is no ciphertext: the gate's verdict is not
+					// observable through the handler (the decrypting handler answers itself)
+					if exp == c04Accept {
+						exp = c04Unspec
+					}
+					wantBody = nil
+					classes["unspec:signed-body-is-no-ciphertext"] = true
+				}
 				switch {
 				case st.Off == tolS || st.Off == -tolS:
 					classes["valid:at-boundary"] = true
@@ -281,6 +312,19 @@ func c04SigInterp(t *testing.T, c c04SigCase) (v kit.Verdict) {
 				}
 				code, s := send(wire)
 				what := fmt.Sprintf("step %d valid (timestamp now%+ds abs=%q, tolerance %v, now has %dms, %s %s)", i, st.Off, st.Abs, tol, c.NowMs, st.Req.Method, st.Req.Path)
+				if panicked != "" {
+					if st.Req.CType == 1 && st.Req.BadEnc == 4 && len(plain) > 0 && strings.Contains(panicked, "index out of range [-1]") {
+						// FINDINGS.md F1 (a defect outside the statement of C04, recorded in DESIGN.md):
+						// content type 1 and a body whose base64 decoding is empty panics in
+						// pkcs5UnPadding. Observed, not a failure; any other panic is one.
+						classes["observed:crypto-empty-ciphertext-panic"] = true
+						panicked = ""
+						afterAbort = false
+						continue
+					}
+					fail = fmt.Sprintf("%s: the middleware panicked while serving a correctly signed request with body %q: %s", what, wire.Body, panicked)
+					return
+				}
 				if msg := c04SigJudge(what, exp, wantBody, code, s); msg != "" {
 					fail = msg
 					return
@@ -309,11 +353,15 @@ func c04SigInterp(t *testing.T, c c04SigCase) (v kit.Verdict) {
 				classes["T-framing:"+wire.Framing] = true
 				classes["T-shape:"+st.Shape] = true
 				exp := c04Reject
-				if !c.Strict || !c04Verified(wire.Method) {
+				if !c.Strict || !c04Verified(wire.Method) || !c04TamperJudged(st.Tamper) {
 					exp = c04Unspec // the statement speaks about strict mode and GET/POST/PUT/DELETE only
 					classes["tamper:unjudged"] = true
 				}
 				code, s := send(wire)
+				if panicked != "" {
+					fail = fmt.Sprintf("step %d tamper (%s): the middleware panicked: %s", i, st.Tamper, panicked)
+					return
+				}
 				classes["tamper:"+st.Tamper] = true
 				if afterAbort {
 					classes["tamper-right-after-abort"] = true
@@ -328,8 +376,15 @@ func c04SigInterp(t *testing.T, c c04SigCase) (v kit.Verdict) {
 				afterAbort = false
 			case "abort":
 				wire := c04Sign(st.Req, ts)
-				wire.Abort, wire.AbortAt, wire.AbortErr = true, st.At, st.Err
+				wire.Abort, wire.AbortAt, wire.AbortErr, wire.AbortMore = true, st.At, st.Err, st.More
+				if st.More > 0 {
+					classes["abort:announced-more-than-delivered"] = true
+				}
 				code, s := send(wire)
+				if panicked != "" {
+					fail = fmt.Sprintf("step %d abort: the middleware panicked: %s", i, panicked)
+					return
+				}
 				switch {
 				case st.At >= len(wire.Body):
 					classes["abort:after-all-bytes"] = true
@@ -420,6 +475,7 @@ func c04SigGen(rt *rapid.T) c04SigCase {
 		c.NowMs = rapid.SampledFrom([]int{1, 250, 500, 999}).Draw(rt, "nowms")
 	}
 	tolS := c.TolMs / 1000
+	c.Echo = rapid.IntRange(0, 3).Draw(rt, "echo") == 0
 	n := rapid.IntRange(2, 8).Draw(rt, "nsteps")
 	var lastValid *c04SigReq
 	var lastAbort *c04SigStep
@@ -435,6 +491,9 @@ func c04SigGen(rt *rapid.T) c04SigCase {
 			st.Req = c04GenSigReq(rt)
 			if lastAbort != nil && rapid.Bool().Draw(rt, "same-as-abort") {
 				st.Req = lastAbort.Req // the intact retry of the aborted upload
+			}
+			if st.Req.CType == 1 && st.Req.Body != "" && rapid.IntRange(0, 3).Draw(rt, "badenc?") == 0 {
+				st.Req.BadEnc = rapid.IntRange(1, 6).Draw(rt, "badenc")
 			}
 			if rapid.IntRange(0, 2).Draw(rt, "boundary?") == 0 {
 				st.Off = c04GenAnyOff(rt, tolS)
@@ -478,6 +537,9 @@ func c04SigGen(rt *rapid.T) c04SigCase {
 			st.Off = c04GenInTol(rt, tolS)
 			st.At = rapid.SampledFrom([]int{0, 1, 2, 3, 5, 8, 16, 17, 100, 100000}).Draw(rt, "at")
 			st.Err = rapid.SampledFrom([]string{"ueof", "custom"}).Draw(rt, "err")
+			if rapid.IntRange(0, 3).Draw(rt, "more?") == 0 {
+				st.More = rapid.SampledFrom([]int{1, 16, 1000}).Draw(rt, "more")
+			}
 			a := st
 			lastAbort = &a
 		}
